@@ -59,6 +59,21 @@ def compile(structure: type[Structure]) -> type[Structure]:
     return Compiler(structure.cs).compile(structure)
 
 
+def _aligns_on_stream(type_: type[BaseType]) -> bool:
+    """Whether reading the type may skip padding that depends on the position in the stream.
+
+    Aligned structures align their tail on the absolute stream position, so they only consume exactly
+    their own size when they start on an aligned position.
+    """
+    while issubclass(type_, BaseArray):
+        type_ = type_.type
+
+    if issubclass(type_, Structure) and not issubclass(type_, Union):
+        return type_.__align__ or any(_aligns_on_stream(field.type) for field in type_.__fields__)
+
+    return False
+
+
 class Compiler:
     def __init__(self, cs: cstruct):
         self.cs = cs
@@ -242,8 +257,9 @@ class _ReadSourceGenerator:
                 current_block.append(field)
                 block_end = field.offset + size if field.offset is not None and size is not None else None
 
-            if size is None:
-                # After a variable-size field we don't know where the stream is
+            if size is None or _aligns_on_stream(field_type):
+                # After a variable-size field we don't know where the stream is, nor after a nested
+                # aligned structure (it may have been read from an unaligned position)
                 current_offset = None
             elif not field.bits or bits_rollover:
                 if field.offset is not None:
